@@ -130,7 +130,18 @@ fn claims_for(leaves: &[Vec<u8>], rt: &RefTree, i: usize, reduced: bool) -> Vec<
     }
     // other indices inside and beyond the width
     let span = if reduced { 2 * width } else { 4 * width };
-    for j in 0..span.max(4) {
+    // very large trees: a structured set of other indices instead of every one
+    let others: Vec<usize> = if n > 5000 {
+        let mut v: Vec<usize> = (0..64).collect();
+        v.extend([i.wrapping_sub(1), i + 1, i ^ 1, i ^ (width >> 1), i + width, i + 2 * width, width - 1, width, width + 1, 2 * width - 1, 3 * width + i]);
+        v.retain(|j| *j < usize::MAX / 2);
+        v.sort();
+        v.dedup();
+        v
+    } else {
+        (0..span.max(4)).collect()
+    };
+    for j in others {
         if j != i {
             let class = if j % width == i { "index-aliased-beyond-width" } else { "wrong-index" };
             out.push(mk(class, &leaves[i], j, &root, &path, false, false));
@@ -241,6 +252,11 @@ pub fn run(tier: Tier) -> i32 {
         sizes = (1..=1024).collect();
         sizes.extend([1025, 2047, 2048, 4096]);
     }
+    // far beyond what a block needs, around the 2^15 / 2^16 node-count boundaries (index width)
+    sizes.extend([32_767, 32_768, 32_769, 50_001, 65_535, 65_536, 65_537]);
+    if tier == Tier::Thorough {
+        sizes.extend([131_072, 131_073, 300_000]);
+    }
     let evals = AtomicUsize::new(0);
     let nontrivial = AtomicUsize::new(0);
     let accepted_true = AtomicUsize::new(0);
@@ -270,7 +286,13 @@ pub fn run(tier: Tier) -> i32 {
     trees.par_iter().for_each(|(n, trailing, holes)| {
         let leaves: Vec<Vec<u8>> = (0..*n).map(|i| leaf_data(*n, i, *trailing, *holes)).collect();
         let rt = RefTree::new(&leaves);
-        let tree = PlainMerkleTree::new(&leaves);
+        let tree = match catch(std::panic::AssertUnwindSafe(|| PlainMerkleTree::new(&leaves))) {
+            Ok(t) => t,
+            Err(p) => {
+                report.violation("C15:tree-construction-panics", format!("a tree of {n} leaves cannot be built: {p:.120}"), json!({"leaves": n}));
+                return;
+            }
+        };
         if tree.get_root() != rt.root() {
             report.violation(
                 "C15:root-differs-from-reference",
@@ -284,7 +306,7 @@ pub fn run(tier: Tier) -> i32 {
             (0..*n).collect()
         } else {
             let mut v = vec![0, 1, n / 2 - 1, n / 2, n - 2, n - 1];
-            v.extend((0..*n).step_by(37));
+            v.extend((0..*n).step_by(if *n > 5000 { *n / 24 } else { 37 }));
             v.sort();
             v.dedup();
             v
